@@ -208,7 +208,7 @@ SHELL_ASSUME = [
 PROPS = {
     'C01': dict(
         lean_modules=['OLP.Props.C01', 'OLP.Props.C01Facts'], namespaces=['OLP.Props.C01'],
-        required_theorems=['execBlocks_env_independent', 'runCalls_env_independent', 'block_log_is_cache_in_first_write_order', 'sortKeys_perm_invariant', 'no_unsorted_writing_range', 'map_ranges_as_classified', 'env_uses_as_classified'],
+        required_theorems=['env_independent_instance', 'env_independent_calls_instance', 'execBlocks_env_independent', 'runCalls_env_independent', 'block_log_is_cache_in_first_write_order', 'sortKeys_perm_invariant', 'no_unsorted_writing_range', 'map_ranges_as_classified', 'env_uses_as_classified'],
         run=run_c01, replay=replay_olh('twin'), level='proof', assumptions=SHELL_ASSUME,
         model_limits='environment independence of the 39 handlers themselves rests on the extracted envUses/mapRanges tables plus twin replicas (identity, role, witness flag differ; Go map order differs per run), not on per-handler proofs; IAVL determinism is trusted (validated under C09)'),
     'C02': dict(
@@ -232,10 +232,10 @@ PROPS = {
         model_limits='inputs run in child processes (exit status, handlePanic closure, hang, probe SEND afterwards); the failure points a finite block gas limit puts inside the handlers are enumerated exactly by the gassweep engine (every refusable store operation of a generated transaction is in turn the first one refused), not sampled'),
     'C05': dict(
         lean_modules=['OLP.Props.C05', 'OLP.Props.C05Facts'], namespaces=['OLP.Props.C05'],
-        required_theorems=['replay_deliver_noop', 'replay_check_rejected', 'executed_tx_indexed', 'index_is_stable', 'replay_noop_in_later_block', 'replay_any_encoding_noop_partial', 'reencoded_replay_executes_twice', 'canonical_guard_present'],
+        required_theorems=['replay_any_encoding_noop_guarded', 'replay_any_encoding_rejected_guarded', 'guarded_instance', 'canonical_instance', 'gdH_not_canonical', 'replay_deliver_noop', 'replay_check_rejected', 'executed_tx_indexed', 'index_is_stable', 'replay_noop_in_later_block', 'replay_any_encoding_noop_partial', 'reencoded_replay_executes_twice', 'canonical_guard_present'],
         run=run_c05, replay=replay_olh('replay'), level='proof',
         assumptions=SHELL_ASSUME + ['SHA-256 of the received bytes is collision free (the hash is a parameter of the theorems)', 'the Tendermint kv tx indexer is trusted; the harness feeds it after every block as the indexer service does'],
-        model_limits='the theorem for arbitrary re-encodings keeps `_partial`: it is stated under `Canonical` (byte strings the handlers cannot tell apart have the same hash), which the code establishes by two means outside the shell model — the canonical-encoding guard of both entry points (T3 fact `canonical_guard_present`) and one spelling per key and per signature in the key handlers (ED25519: Go rejects s >= L; SECP256K1: fixed length and low-s rule of Tendermint; BTCEC: compressed key only and low-s DER without trailing bytes since d4987f9 / 9dae7fc) — both exercised by the replay engine (re-encoding classes 0-10 over originals signed with the three algorithms); OLVM transactions additionally rely on the account nonce (only `stNonce > msgNonce` is rejected, S12)'),
+        model_limits='re-encodings: `replay_any_encoding_noop_guarded` / `_rejected_guarded` state the property without `Canonical`, for handlers of the shape the code has since round 1 — bytes that are not the canonical serialisation of their parse are refused before anything runs (`Guarded`; tied to the source by the T3 fact `canonical_guard_present` for both entry points) — with `parse t2 = parse t1` as "the same signed content"; the older `replay_any_encoding_noop_partial` (under `Canonical`) is kept. What the shell model cannot see is a second spelling INSIDE the parse (another byte string for the same key or signature): one spelling per key and per signature in the key handlers (ED25519: Go rejects s >= L; SECP256K1: fixed length and low-s rule of Tendermint; BTCEC: compressed key only and low-s DER without trailing bytes since d4987f9 / 9dae7fc) — both exercised by the replay engine (re-encoding classes 0-10 over originals signed with the three algorithms); OLVM transactions additionally rely on the account nonce (only `stNonce > msgNonce` is rejected, S12)'),
     'C06': dict(
         lean_modules=['OLP.Props.C06', 'OLP.Props.C06Facts'], namespaces=['OLP.Props.C06'],
         required_theorems=['failed_tx_keeps_store', 'failed_tx_noop', 'remove_failed_deliverAll', 'remove_failed_same_block', 'remove_failed_same_block_of_no_hooks', 'remove_failed_instance', 'remove_failed_needs_room', 'failed_tx_starves_later', 'block_room_after_txs', 'deliverer_discipline'],
@@ -243,12 +243,12 @@ PROPS = {
         model_limits='the removal theorems hold for handlers that read the gas level only in the fee step and relative to its start (`RoomBlind`, proved from syntax for every program without a `.gas` node: `roomShiftInv_of_syntax`; instance `remove_failed_instance`) — at block level under the premise that the meter has room after EndBlock in the full block (`remove_failed_needs_room` shows the premise cannot be dropped in the MODEL, whose EndBlock hooks read the metered deliver state; the code runs them unmetered since 359026c, so the model is the more pessimistic of the two); the EVM object cache / journal are volatile cells of the generic model: their rollback on failure is covered by C16/C17 and by the olvm engine that run_c06 runs with its atomicity monitors'),
     'C07': dict(
         lean_modules=['OLP.Props.C07', 'OLP.Props.C07Facts'], namespaces=['OLP.Props.C07'],
-        required_theorems=['checkTx_keeps_store', 'checktx_isolation', 'unaimed_hook_breaks_isolation', 'check_vset_breaks_isolation', 'begin_hooks_aimed', 'end_hooks_aimed', 'checker_discipline', 'check_path_runs_no_finalisation', 'check_path_statedb_uses'],
+        required_theorems=['isolation_instance', 'isolation_instance_facts', 'checkTx_keeps_store', 'checktx_isolation', 'unaimed_hook_breaks_isolation', 'check_vset_breaks_isolation', 'begin_hooks_aimed', 'end_hooks_aimed', 'checker_discipline', 'check_path_runs_no_finalisation', 'check_path_statedb_uses'],
         run=run_c07, replay=replay_olh('inject'), level='proof', assumptions=SHELL_ASSUME,
         model_limits='premise CheckNoVset is discharged statically only for the classified volatile setters (option copies); other in-memory fields of the singleton stores (validator queue, EVM caches) are covered by the inject twin'),
     'C08': dict(
         lean_modules=['OLP.Props.C08', 'OLP.Props.C08Facts'], namespaces=['OLP.Props.C08'],
-        required_theorems=['info_after_crash', 'crash_midblock_eq_crash_before', 'replay_converges', 'history_with_crashes_converges', 'prepare_reloads_option_copies'],
+        required_theorems=['crash_history_instance', 'replay_instance', 'cr_volDerived', 'info_after_crash', 'crash_midblock_eq_crash_before', 'replay_converges', 'history_with_crashes_converges', 'prepare_reloads_option_copies'],
         run=run_c08, replay=replay_olh('crash'), level='proof', assumptions=SHELL_ASSUME + ['a crash is a process death with the OS page cache intact: the data directory is byte-copied at the crash point while the application is still open and the copy is reopened; power-loss durability of goleveldb/IAVL batches is trusted'],
         model_limits='premise VolDerived (volatile memory at block boundaries is a function of the persisted tree) is an application-level discipline: checked statically for the option copies (Prepare vs setupState) and dynamically by the crash twin for everything else'),
     'C09': dict(
